@@ -340,7 +340,11 @@ fn reference_at<T: Scalar>(v: &V, xs: &[f64], t: usize, got: f64) -> Option<f64>
         // Alma: absolute insertion positions matter only while the stream is shorter than 2N-1
         if let Kind::Alma(n) = v.kind {
             if t + 1 < 3 * n + 8 {
-                return exact_windowed(&v.kind, &xs[..=t]);
+                // (both admitted weight assignments here too: they differ most while the stream is short)
+                let a = exact_windowed(&v.kind, &xs[..=t])?;
+                let xq: Vec<Xq> = xs[..=t].iter().map(|x| Xq::of(*x)).collect();
+                let b = ow::alma_by_position(ow::win(&xq, n), n, Xq::of(6.0), Xq::of(0.85)).f();
+                return Some(if (got - b).abs() < (got - a).abs() { b } else { a });
             }
             // long history: every weight in the window is g(N-1): feed a tail whose first N-1
             // positions have already left the window
